@@ -417,6 +417,7 @@ def main():
                 'headings/TOC, tables, images+css, metadata, CriticMarkup, corpus, generated, one multi-slab document); each step converts through a random API '
                 'family or on a reused engine (several formats, metadata queries/updates, resets in between); every output compared with the conversion done '
                 'first in a fresh process; non-trivial = more than one step or a document/engine reused' % kmax)
+    chk.rule = chk.rule + ' ; plus: text extraction (convert_opml/itmz_to_text) on DString / engine with the source compared byte for byte, engines over an OPML source converted 2-5 times, substring parses on a reused engine, and one parsed tree exported in format A then B versus B exported first'
     chk.assumptions = ['EXT_RANDOM_FOOT / EXT_RANDOM_LABELS excluded as the property excludes them; packaged formats (uuid/date) are compared in C06/C09']
     for e in chk.known.witnesses():
         r = core.JobResult()
